@@ -160,6 +160,7 @@ type Machine struct {
 	writes       []writeRec
 	writeLogOn   bool
 	watchGlobals bool
+	mergoNoDeref bool
 	syncDepth    int // > 0 while a lock is held / inside Once.Do / in an atomic operation
 	fmtSymBytes  []*sym.Term
 	changedWhere []string
